@@ -212,7 +212,7 @@ static void stage_corpus(Run &R) {
 #ifndef VF_FUZZ
 int main(int argc, char **argv) {
     Run R; R.a = parse_args(argc, argv); R.prop = "C03";
-    install_death(R.a); install_watchdog(&R.evaluations, R.a.stage == "huge" ? 60 : 10);
+    install_death(R.a); WatchdogGuard wdg; install_watchdog(&R.evaluations, R.a.stage == "huge" ? 60 : 10);
     inflight() = [] { return g_bytes ? mkcase(*g_bytes).str() : std::string(); };
     make_vet();
     if (!R.a.replay.empty()) {
